@@ -3,7 +3,8 @@
 //! `tokenizer`, `parser` and `ast` are crate-private, so everything crosses the boundary as plain text:
 //! * `tokens(code)`       token kinds + lexemes, or the name of the tokenizer error
 //! * `parse_sexpr(code)`  canonical S-expression of the untyped AST of a whole input, or the parse errors
-//! * `is_xid_start/continue`, `is_identifier_start/continue` character classes as the tokenizer sees them
+//! * `is_xid_start/continue` (the `unicode-ident` classes) and `identifier_char_class` (identifier start /
+//!   continue exactly as the tokenizer decides them)
 //!
 //! Text conventions: identifiers are written as they are (they cannot contain blanks or parentheses);
 //! every other string (string literal parts, format specifiers, decorator arguments) is written as its
